@@ -287,3 +287,26 @@ def sany(module: str) -> None:
     if p.returncode != 0 or 'Semantic errors' in p.stdout or \
             'Parse Error' in p.stdout or '*** Errors' in p.stdout:
         raise MachineryError(f'SANY {module}: {p.stdout[-2000:]}')
+
+
+def run_apalache(module: str, init: str, inv: str, length: int, timeout: int = 1200) -> dict:
+    """apalache-mc check --init --inv --length on spec/<module>.tla (symbolic,
+    unbounded data).  Returns {'ok': bool, 'outcome': str, 'wall_s': float}."""
+    d = fresh('apalache')
+    d.mkdir(parents=True)
+    shutil.copy(SPEC / f'{module}.tla', d / f'{module}.tla')
+    t0 = time.time()
+    cmd = ['apalache-mc', 'check', f'--init={init}', f'--inv={inv}', f'--length={length}',
+           f'--out-dir={d / "out"}', f'{module}.tla']
+    try:
+        p = subprocess.run(cmd, cwd=str(d), stdout=subprocess.PIPE, stderr=subprocess.STDOUT,
+                           text=True, timeout=timeout)
+        out = p.stdout
+    except (OSError, subprocess.TimeoutExpired) as ex:
+        raise MachineryError(f'apalache could not be run: {ex}')
+    m = re.search(r'The outcome is: (\w+)', out)
+    shutil.rmtree(d, ignore_errors=True)
+    if not m:
+        raise MachineryError(f'apalache output not understood:\n{out[-1500:]}')
+    return {'ok': m.group(1) == 'NoError', 'outcome': m.group(1), 'init': init, 'inv': inv,
+            'length': length, 'wall_s': round(time.time() - t0, 1)}
